@@ -282,6 +282,34 @@ def keyword_table_family():
     return out
 
 
+def shared_helper_family():
+    """Groups / optionals / repetition bodies that PRINT the same once item names are dropped and carry the same action text,
+    but bind the names to different items, or differ only in the action of a nested group: the generator's helper-rule
+    cache must keep them apart."""
+    T = lambda s, name=None: ({"k": "tok", "s": s, "name": name} if name else {"k": "tok", "s": s})  # noqa: E731
+
+    def grp(n1, n2, order):
+        return {"k": "group", "alts": [{"items": [T("a", n1), T("b"), T("c", n2)], "action": "names", "order": order}]}
+
+    def inner(action_order):
+        return {"k": "group", "alts": [{"items": [T("a", "p"), T("b", "q")], "action": "names", "order": action_order}]}
+
+    out = []
+    # (k='a' 'b' v='c' {(k, v)})  next to  (v='a' 'b' k='c' {(k, v)})
+    g1, g2 = grp("k", "v", ["k", "v"]), grp("v", "k", ["k", "v"])
+    out.append({"rules": [{"name": "r0", "memo": False, "alts": [{"items": [dict(g1, name="x"), T("b"), dict(g2, name="y")], "action": "tuple"}]}]})
+    out.append({"rules": [{"name": "r0", "memo": False, "alts": [{"items": [dict(g2, name="x")], "action": "tuple"}, {"items": [T("b"), dict(g1, name="y")], "action": "tuple"}]}]})
+    out.append({"rules": [{"name": "r0", "memo": False, "alts": [{"items": [{"k": "star", "x": g1, "name": "x"}, T("b"), {"k": "opt", "x": g2, "name": "y"}], "action": "tuple"}]}]})
+    out.append({"rules": [{"name": "r0", "memo": True, "alts": [{"items": [dict(g1, name="x")], "action": "tuple"}]},
+                          {"name": "r1", "memo": False, "alts": [{"items": [dict(g2, name="x")], "action": "tuple"}]}]})
+    # the same outer group around nested groups whose own actions differ
+    o1 = {"k": "group", "alts": [{"items": [dict(inner(["p", "q"]), name="m"), T("c", "n")], "action": "names", "order": ["m", "n"]}]}
+    o2 = {"k": "group", "alts": [{"items": [dict(inner(["q", "p"]), name="m"), T("c", "n")], "action": "names", "order": ["m", "n"]}]}
+    out.append({"rules": [{"name": "r0", "memo": False, "alts": [{"items": [dict(o1, name="x"), T("b"), dict(o2, name="y")], "action": "tuple"}]}]})
+    out.append({"rules": [{"name": "r0", "memo": False, "alts": [{"items": [dict(o2, name="x")], "action": "tuple"}, {"items": [T("c"), dict(o1, name="y")], "action": "tuple"}]}]})
+    return out
+
+
 def run(rep, tier, pool, variants=("shipped",)):
     rep.rule = (
         "random well-formed grammars (1-4 rules, 1-3 alternatives, items: tokens, rule refs, groups, ? * + gather & ! ~ && , memo flags, direct and "
@@ -298,9 +326,10 @@ def run(rep, tier, pool, variants=("shipped",)):
     gs += fam if tier != "quick" else [fam[i] for i in range(0, len(fam), 2)]
     gs += [g for g in same_name_family() + inlined_choice_family() if G.well_formed(g)]
     gs += keyword_table_family()
+    gs += shared_helper_family()
     rep.extra["multi_cycle_grammars"] = len(fam)
     tries = 0
-    while len(gs) < n + len(FIXED) + len(fam) + 26 and tries < n * 60:
+    while len(gs) < n + len(FIXED) + len(fam) + 32 and tries < n * 60:
         tries += 1
         g = G.gen_grammar(r)
         try:
